@@ -27,5 +27,6 @@ def run(ctx):
                 "counted as known-class-hit; traversal order = strcmp order (skiplist) / signed-char byte order (trie); "
                 "hashtable and skiplist under LeakSanitizer, the trie without (D82, outside C18)")
     mapcheck.run(ctx, "C18", STREAMS, mapgen.gen_c18, mapgen.oracle_c18, 1500, 30000,
-                 extra_selfcheck=lambda c: mapcheck.monitor_selfcheck(c, STREAMS, c.scale(150, 1500)),
+                 extra_selfcheck=lambda c: (mapcheck.monitor_selfcheck(c, STREAMS, c.scale(150, 1500)),
+                                            mapcheck.sl_class_selfcheck(c, c.scale(600, 6000))),
                  oracle_streams=ORACLE_STREAMS, noracle=(700, 10000))
